@@ -199,3 +199,8 @@ Definition c07o_judge := judge c07o_model c07o_oeqb c07o_ok (fun _ => 0%N).
 (* ---------- part quorum: Plugin.ObservationQuorum = at least F+1 observations ---------- *)
 Definition quorum_model (i : N * Z * N) : N := let '(_, bigF, cnt) := i in if Z.leb (bigF + 1) (Z.of_N cnt) then 1%N else 0%N.
 Definition quorum_judge := judge quorum_model N.eqb (fun i o => N.eqb (quorum_model i) o) (fun _ => 0%N).
+
+(* ---------- part execsys: whole execute cycles on real plugins, judged by Check/ExecSys_check.v (its case terms use
+   that module's constructors: the part imports it, see 'coq_import' in lib/specs/C07.py) ---------- *)
+Require Verif.Check.ExecSys_check.
+Definition sys_judge := Verif.Check.ExecSys_check.sys_judge.
